@@ -230,6 +230,37 @@ theorem rtSplines (vs : List Val) (b rest : Bytes) (h : encSplines vs = some b) 
           simp only [decSplines, List.append_assoc] at hd ⊢
           simp only [hd, ht, hi]
 
+theorem rtU32V (v : Val) (b rest : Bytes) (h : encU32V v = some b) : decU32V (b ++ rest) = .ok (v, rest) := by
+  cases v with
+  | nat n => simp only [encU32V] at h; simp [decU32V, decInt_encInt 4 .le n b rest h]
+  | _ => simp [encU32V] at h
+
+theorem rtUpdateMask (v : Val) (b rest : Bytes) (h : encUpdateMask v = some b) : decUpdateMask (b ++ rest) = .ok (v, rest) := by
+  unfold encUpdateMask at h
+  split at h
+  · rename_i masks values
+    split at h
+    · rename_i hc
+      cases h0 : encInt 1 .le masks.length with
+      | none => simp [h0] at h
+      | some c =>
+        cases h1 : iterEnc encU32V masks with
+        | none => simp [h0, h1] at h
+        | some mb =>
+          cases h2 : iterEnc encU32V values with
+          | none => simp [h0, h1, h2] at h
+          | some vb =>
+            simp only [h0, h1, h2, Option.some.injEq] at h
+            subst h
+            have hd := decInt_encInt 1 .le masks.length c (mb ++ vb ++ rest) h0
+            have hm := iterDec_iterEnc encU32V decU32V masks (fun v b' rest' _ hv => rtU32V v b' rest' hv) mb (vb ++ rest) h1
+            have hv := iterDec_iterEnc encU32V decU32V values (fun v b' rest' _ hv => rtU32V v b' rest' hv) vb rest h2
+            rw [hc.1] at hv
+            simp only [decUpdateMask, List.append_assoc] at hd ⊢
+            simp only [hd, hm, hv, hc.2, if_true]
+    · cases h
+  · cases h
+
 theorem rtPrim (name : String) (v : Val) (b rest : Bytes) (h : encPrim name v = some b) :
     decPrim name (b ++ rest) = .ok (v, rest) := by
   unfold encPrim at h
@@ -255,6 +286,9 @@ theorem rtPrim (name : String) (v : Val) (b rest : Bytes) (h : encPrim name v = 
       simp only [hk] at h
       simp only [rtSplines vs b rest h]
     | _ => simp [hk] at h
+  | updateMask =>
+    simp only [hk] at h
+    simp only [rtUpdateMask v b rest h]
   | other => cases v <;> simp [hk] at h
 
 /-- **leaf round trip**: a leaf decodes its own encoding and leaves the rest of the stream untouched -/
